@@ -504,6 +504,7 @@ def run_suites(pid, tier, seed, stats, log, mult=1):
         rng = random.Random('%s-%s-%d' % (pid, name, seed))
         t0 = time.time()
         try:
+            S.TokSpec.COUNTER = 0
             cases = S.SUITES[name](rng, n, stats, **kw)
         except Exception as e:      # noqa: BLE001
             cv = package_crash(pid, 'suite', name, n, seed, e)
@@ -611,6 +612,7 @@ def run_oracles_(pid, tier, seed, stats, log, mult=1, known_hits=None):
         body_errors0 = S_.BODY_ERRORS
         S_.BODY_ERRORS = False       # the oracles judge VALID inputs; inputs on which the body raises are injected deliberately (oracle_validation)
         try:
+            O.TokSpec.COUNTER = 0
             r = dispatch_oracle(O, name, rng, n, stats, props, known_hits)
         except Infra:
             raise
@@ -818,7 +820,7 @@ def do_replay(path):
     case = v.get('case') or {}
     pid = r['property']
     try:
-        if case.get('entry') == 'join' and case.get('which') != 'edit_distance' and v.get('oracle') in ('setsim', None):
+        if case.get('entry') == 'join' and case.get('which') != 'edit_distance' and v.get('oracle') in ('setsim', None) and not case.get('tokenizer_reconfigured'):
             ts, L, R, out = O.run_join_case(case)
             if True:
                 vv = O.check_setsim_run(case['which'], ts, L, R, case['l_key'], case['r_key'], case['l_attr'], case['r_attr'], case['threshold'], case['kw'], out,
@@ -836,6 +838,7 @@ def do_replay(path):
             spec = [sp for sp in PROPS[pid]['suites'] if sp[0] == case['name']][0]
             rng = random.Random('%s-%s-%d' % (pid, case['name'], v.get('seed', 0)))
             try:
+                S.TokSpec.COUNTER = 0
                 S.SUITES[case['name']](rng, case['n'], st, **(spec[3] if len(spec) > 3 else {}))
             except Exception as e:      # noqa: BLE001
                 cv = package_crash(pid, 'suite', case['name'], case['n'], v.get('seed', 0), e)
